@@ -1033,6 +1033,9 @@ func streamDebsig(g *core.G) {
 		emitDebsig(g, good, role, krIn)
 		g.Emit("law-debsig", core.Hex(string(good)), core.Hex(role), core.Hex(serializeKeyring(krIn)), "accept", fmt.Sprintf("ok:%016x", signer.PrimaryKey.KeyId))
 		g.Emit("law-debsig-seq", core.Hex(string(good)), core.Hex(role), core.Hex(serializeKeyring(krIn)), core.Hex(serializeKeyring(krOut)))
+		if i%3 == 0 {
+			g.Emit("law-debsig-krmut", core.Hex(string(good)), core.Hex(role), core.Hex(serializeKeyring([]*openpgp.Entity{signer})), core.Hex(serializeKeyring(krOut)))
+		}
 		emitDebsig(g, good, role, krOut)
 		g.Emit("law-debsig", core.Hex(string(good)), core.Hex(role), core.Hex(serializeKeyring(krOut)), "reject", "")
 		emitDebsig(g, good, role, krEmpty)
@@ -1228,6 +1231,53 @@ func init() {
 				}
 			} else if err == nil {
 				return fmt.Sprintf("FAIL accepted on repetition %d (no error, signer %v) although the package was tampered with / the key or role is wrong", i, e != nil)
+			}
+		}
+		return "ok"
+	}
+	// law (C16): the keyring is the caller's slice; between two checks its entries are replaced in
+	// place (same backing array, same length: key rotation in a long-running service).  A package
+	// signed by a key that is no longer in it does not verify.  args: package, role, keyring
+	// holding the signer, keyring holding another key
+	debImpl["law-debsig-krmut"] = func(a []string) string {
+		data := []byte(core.MustUnHex(a[0]))
+		role := core.MustUnHex(a[1])
+		in, out := readKeyring(a[2]), readKeyring(a[3])
+		if len(in) != 1 || len(out) != 1 {
+			return "ok"
+		}
+		check := func(kr openpgp.EntityList) (bool, string) {
+			d, err := deb.Load(bytes.NewReader(data), "x.deb")
+			if err != nil {
+				return false, "load: " + err.Error()
+			}
+			defer d.Close()
+			e, err := d.CheckDebsig(kr, role)
+			return err == nil && e != nil, fmt.Sprint(err)
+		}
+		for _, n := range []int{1, 7, 8, 9, 64, 100} {
+			kr := make(openpgp.EntityList, n)
+			for i := range kr {
+				kr[i] = in[0]
+			}
+			if ok, why := check(kr); !ok {
+				return fmt.Sprintf("FAIL a %d-entry keyring holding the signer does not verify the package: %s", n, why)
+			}
+			for i := range kr {
+				kr[i] = out[0]
+			}
+			if ok, _ := check(kr); ok {
+				return fmt.Sprintf("FAIL after all %d entries of the keyring were replaced in place, a package signed by the removed key still verifies", n)
+			}
+			kr = kr[:0]
+			if ok, _ := check(kr); ok {
+				return fmt.Sprintf("FAIL with the %d-entry keyring emptied in place the package still verifies", n)
+			}
+			for i := 0; i < n; i++ {
+				kr = append(kr, in[0])
+			}
+			if ok, why := check(kr); !ok {
+				return fmt.Sprintf("FAIL after the signer was put back into the %d-entry keyring: %s", n, why)
 			}
 		}
 		return "ok"
